@@ -247,12 +247,17 @@ class Chunk:
         superrun_first_chunk, superrun_second_chunk = _split_runs_in_chunk(self.superrun, t)
         # If the superrun is split and the fragment cover only one run,
         # you need to recover the run_id
-        if superrun_first_chunk is None or len(superrun_first_chunk) == 1:
+        # (the run of the fragment: an empty run span may have been dropped from it)
+        if superrun_first_chunk is None:
             run_id_first_chunk = list(self.superrun.keys())[0]
+        elif len(superrun_first_chunk) == 1:
+            run_id_first_chunk = list(superrun_first_chunk.keys())[0]
         else:
             run_id_first_chunk = self.run_id
-        if superrun_second_chunk is None or len(superrun_second_chunk) == 1:
+        if superrun_second_chunk is None:
             run_id_second_chunk = list(self.superrun.keys())[-1]
+        elif len(superrun_second_chunk) == 1:
+            run_id_second_chunk = list(superrun_second_chunk.keys())[0]
         else:
             run_id_second_chunk = self.run_id
 
